@@ -96,6 +96,38 @@ structure StInv (s : Bytes) (st : St) (p : Nat) : Prop where
   n8 : st.nBits < 8
   s0 : st.huffs0.size = 1024
   s1 : st.huffs1.size = 1024
+  /-- `this.code_lengths` is an `array[320] base.u8` -/
+  cl : st.codeLengths.size = 320
+
+/-- `init_huff` does not touch `this.code_lengths` -/
+theorem St.initHuff_codeLengths (st st' : St) (w a b c : Nat) (h : st.initHuff w a b c = .ok st') :
+    st'.codeLengths = st.codeLengths := by
+  unfold St.initHuff at h
+  split at h
+  · cases hh : StdDeflate.initHuff st.codeLengths st.huffs0 0 a b c with
+    | error e => rw [hh] at h; simp [bind, Except.bind] at h
+    | ok r =>
+      rw [hh] at h
+      simp only [bind, Except.bind, Except.ok.injEq] at h
+      rw [← h]
+  · cases hh : StdDeflate.initHuff st.codeLengths st.huffs1 1 a b c with
+    | error e => rw [hh] at h; simp [bind, Except.bind] at h
+    | ok r =>
+      rw [hh] at h
+      simp only [bind, Except.bind, Except.ok.injEq] at h
+      rw [← h]
+
+theorem initFixedHuffman_codeLengths (st st' : St) (h : initFixedHuffman st = .ok st') :
+    st'.codeLengths.size = 320 := by
+  unfold initFixedHuffman at h
+  dsimp only at h
+  cases h1 : ({ st with codeLengths := fixedCodeLengths } : St).initHuff 0 0 288 257 with
+  | error e => rw [h1] at h; simp [bind, Except.bind] at h
+  | ok st1 =>
+    rw [h1] at h
+    simp only [bind, Except.bind] at h
+    rw [St.initHuff_codeLengths _ _ _ _ _ _ h, St.initHuff_codeLengths _ _ _ _ _ _ h1]
+    simp [fixedCodeLengths]
 
 /-- **The open obligation, stated.**  At every dynamic block the specification reaches, the mirror of
     `init_dynamic_huffman` (code-length code, run-length decoding, two calls of `init_huff`) accepts the header the
@@ -166,7 +198,7 @@ theorem decodeUncompressed_spec {s : Bytes} (st : St) (p : Nat) (out : Bytes) (h
         obtain ⟨rfl, rfl⟩ := h
         have hmin : min (b0 + 256 * b1) (s.size - (st.ri + 4)) = b0 + 256 * b1 := by omega
         simp only [hmin, Nat.le_refl, if_true]
-        refine ⟨_, rfl, ⟨⟨by simp [bitsLE], by simp only; omega, by simp only; omega⟩, by simp, hi.s0, hi.s1⟩, ?_⟩
+        refine ⟨_, rfl, ⟨⟨by simp [bitsLE], by simp only; omega, by simp only; omega⟩, by simp, hi.s0, hi.s1, hi.cl⟩, ?_⟩
         simp only [ho]
 
 /-! ### one block -/
@@ -200,7 +232,7 @@ theorem decodeHuffmanSlow_spec {s : Bytes} (st2 : St) (hl hd : Huff) (ht : Table
   rw [if_neg (nbits_check _ _ hinv.n8 hlt), k1]
   dsimp only
   rw [if_neg (nbits_check _ _ k3 k2.bits_lt)]
-  exact ⟨_, rfl, ⟨k2, k3, hinv.s0, hinv.s1⟩, rfl⟩
+  exact ⟨_, rfl, ⟨k2, k3, hinv.s0, hinv.s1, hinv.cl⟩, rfl⟩
 
 /-- **One block of any of the three kinds.** -/
 theorem decodeBlock_spec {s : Bytes} (hdyn : DynRefines s) (st : St) (p : Nat) (out : Bytes) (hr : Reach s p out)
@@ -222,7 +254,7 @@ theorem decodeBlock_spec {s : Bytes} (hdyn : DynRefines s) (st : St) (p : Nat) (
       exact ⟨_, rfl, hl, by simp only; omega, by simp only; omega, rfl, rfl, rfl, rfl⟩
     · rw [if_neg h3]
       exact ⟨st, rfl, hi.br, by omega, by have := hi.n8; omega, rfl, rfl, rfl, rfl⟩
-  obtain ⟨st1, f1, f2, f3, f4, f5, f6, f7, _⟩ := hfill
+  obtain ⟨st1, f1, f2, f3, f4, f5, f6, f7, f8⟩ := hfill
   have hfinal : st1.bits &&& 1 = bitAt s p := by
     have := f2.low 1 (by simp only; omega)
     simp only [bitsLE, Nat.mul_zero, Nat.add_zero, Nat.pow_one] at this
@@ -238,7 +270,8 @@ theorem decodeBlock_spec {s : Bytes} (hdyn : DynRefines s) (st : St) (p : Nat) (
   simp only [BR.drop] at hd3
   -- the state after the header
   have hi3 : StInv s { st1 with bits := st1.bits >>> 3, nBits := st1.nBits - 3 } (p + 3) :=
-    ⟨hd3, by simp only; omega, by simp only; rw [f6]; exact hi.s0, by simp only; rw [f7]; exact hi.s1⟩
+    ⟨hd3, by simp only; omega, by simp only; rw [f6]; exact hi.s0, by simp only; rw [f7]; exact hi.s1,
+      by simp only; rw [f8]; exact hi.cl⟩
   unfold decodeBlock
   simp only [f1, bind, Except.bind, hfinal, htype]
   unfold specBlock at h
@@ -254,7 +287,7 @@ theorem decodeBlock_spec {s : Bytes} (hdyn : DynRefines s) (st : St) (p : Nat) (
         { st1 with bits := st1.bits >>> 3, nBits := st1.nBits - 3 } hi3.s0 hi3.s1
       simp only [g1]
       have hinv2 : StInv s st2 (p + 3) := by
-        refine ⟨?_, ?_, g7, g8⟩
+        refine ⟨?_, ?_, g7, g8, initFixedHuffman_codeLengths _ _ g1⟩
         · rw [g3, g4, g5]; exact hd3
         · rw [g4]; show st1.nBits - 3 < 8; omega
       have ho2 : st2.out = out := by rw [g6]; show st1.out = out; rw [f5, ho]
